@@ -118,7 +118,7 @@ def run(tier, seed):
     binary = build.ensure("bvh", "native")
     n_core, n_shape, n_sab = (12000, 3000, 1500) if thorough else (1200, 300, 160)
     progs = list(ORDER_PROBES)
-    progs += [gen_core.generate(seed, i, avoid={"logical_assign_nonlexical"}, label="c20")[0] for i in range(n_core)]
+    progs += [gen_core.generate_form(seed, i, avoid={"logical_assign_nonlexical"}, label="c20")[0] for i in range(n_core)]
     progs += [gen_shape.generate(seed, 9000 + i) for i in range(n_shape)]
     rng = Rng(seed, "c20")
     reported = 0
